@@ -103,7 +103,9 @@ POSTCONDITION Accepted
 CHECK_DEADLOCK FALSE
 """
     r = tlc(module, cfg, name=module + "-" + acc.pid, workers=1, timeout=timeout, env={"TRACE": trace_path}, xmx="6g", xss="1g",
-            deque=True, tags=("TRACE", "DEVUSED"))
+            deque=True, tags=("TRACE", "DEVUSED", "DRIFT"))
+    for d in r.tagged.get("DRIFT", []):
+        acc.drift[str(d)] = acc.drift.get(str(d), 0) + 1
     tr = r.tagged.get("TRACE", [])
     matched = total = 0
     if tr:
@@ -313,7 +315,7 @@ def c16(acc):
     _, p4 = mc_ops(acc, 3, 0, 1, "trim", [], ["Inv_ReadRef", "Inv_SkipRef"], "MC_Ops-c16skip")
     replay_reader(acc, p4, "slice")
     replay_reader(acc, p4, "chunks", extra=["--max-all-cuts", 0, "--stride", 3 if q else 1])
-    _, p5 = mc_ops(acc, 2 if q else 3, 2, 0, "trim", ["tts", "tte", "eee", "cc"], ["Inv_ReadRef"], "MC_Ops-c16flip")
+    _, p5 = mc_ops(acc, 2 if q else 3, 2, 0, "trim", ["tts", "tte", "eee", "cc", "helpers"], ["Inv_ReadRef"], "MC_Ops-c16flip")
     replay_reader(acc, p5, "slice", extra=["--stride", 2 if q else 1])
     # the buffered and async sources implement the trims separately from the slice source
     replay_reader(acc, p, "chunks", extra=["--max-all-cuts", 7, "--stride", 5 if q else 2])
@@ -453,7 +455,7 @@ CONSTANTS
   N = {n}
   Emit = TRUE
   Mode = "{mode}"
-INVARIANTS Inv_RoundTrip Inv_Safe Inv_NoAmp Inv_Closed Inv_Stable Inv_Emit
+INVARIANTS Inv_RoundTrip Inv_Safe Inv_NoAmp Inv_Closed Inv_Stable Inv_Custom Inv_Emit
 CHECK_DEADLOCK FALSE
 """
         r = tlc("MC_Escape", cfg, name="MC_Escape-" + mode, timeout=3000)
@@ -536,10 +538,10 @@ CONSTANTS
   Mode = "{mode}"
   Emit = TRUE
   Widths = {{{', '.join(str(w) for w in widths)}}}
-INVARIANTS Inv_Indent Inv_Plain Inv_IndentReadBack Inv_Saturate Inv_Build Inv_Emit
+INVARIANTS Inv_Indent Inv_IndentConforms Inv_Plain Inv_IndentReadBack Inv_Saturate Inv_Build Inv_Elem Inv_Emit
 CHECK_DEADLOCK FALSE
 """
-    r = tlc("MC_Writer", cfg, name=name, timeout=timeout)
+    r = tlc("MC_Writer", cfg, name=name, timeout=timeout, xss="512m")
     acc.add_tlc(r, f"A:MC_Writer mode={mode} M={M} widths={widths}")
     path = os.path.join(work_dir("beh-" + name), "behaviours.ndjson")
     write_ndjson(path, r.tagged.get("REPLAY", []))
@@ -572,6 +574,10 @@ def c09(acc):
     _, p = mc_writer(acc, 2 if q else 3, "build", [0], "MC_Writer-build")
     summ, viol, _ = harness(["writer-replay", "--file", p, "--prop", acc.pid, "--out-dir", REPLAY_DIR])
     acc.add_harness(summ, viol, "B:replay construction sequences")
+    # the element builder: with_attribute / with_attributes / new_line in every order, four finishing calls, sync and async
+    _, pe = mc_writer(acc, 3 if q else 4, "elem", [0, 2], "MC_Writer-elem-c09")
+    summ, viol, _ = harness(["writer-replay", "--file", pe, "--prop", acc.pid, "--out-dir", REPLAY_DIR])
+    acc.add_harness(summ, viol, "B:replay ElementWriter operation lists (plain and indenting writer, depth 0-2, sync/async, short writes)")
     writer_traces(acc, 400 if q else 5000)
     return acc.finish()
 
@@ -588,6 +594,10 @@ def c19(acc):
     _, p = mc_writer(acc, 4 if q else 5, "indent", [0, 1, 4] if q else [0, 1, 2, 4, 9], "MC_Writer-indent")
     summ, viol, _ = harness(["writer-replay", "--file", p, "--prop", acc.pid, "--out-dir", REPLAY_DIR])
     acc.add_harness(summ, viol, "B:replay event sequences")
+    # attribute indentation of the element builder (new_line between attributes): only white space is added
+    _, pe = mc_writer(acc, 3 if q else 4, "elem", [0, 1, 4] if q else [0, 1, 2, 4, 9], "MC_Writer-elem-c19")
+    summ, viol, _ = harness(["writer-replay", "--file", pe, "--prop", acc.pid, "--out-dir", REPLAY_DIR])
+    acc.add_harness(summ, viol, "B:replay ElementWriter operation lists (attribute indentation)")
     writer_traces(acc, 400 if q else 5000)
     # the serde serializer's indentation obeys the same rule: indented and plain serializations of every family value
     # (mixed text/element content included) read back as the same logical document and deserialize to equal values
